@@ -318,6 +318,27 @@ pub fn par_big(t: &mut Tally, seed: u64) {
         let els: Vec<F65537> = dom.elements().collect();
         t.check((0..els.len()).all(|i| evs.evals[i] == horner(&a, els[i])), || format!("F65537: evaluate_over_domain (poly longer than domain) size {}", n / 4));
     }
+    // large domains (the parallel butterflies and power distribution only split work above ~2^10 elements per thread):
+    // 2^12 .. 2^14 with and without a coset offset, full-length and short inputs; values at 48 positions spread over the
+    // domain against Horner, and the full inverse transform
+    for log in [12usize, 13, 14] {
+        let n = 1usize << log;
+        for offset in [F65537::one(), F65537::from(3u64)] {
+            let dom = Radix2EvaluationDomain::<F65537>::new(n).unwrap().get_coset(offset).unwrap();
+            for len in [n, 3000, n / 2 + 1] {
+                let c: Vec<F65537> = (0..len).map(|_| rnd(&mut rng)).collect();
+                let ev = dom.fft(&c);
+                let mut ok = ev.len() == n;
+                for s in 0..48usize {
+                    let i = (s * 2731 + 17 * s * s) % n;
+                    ok &= ev[i] == horner(&c, dom.element(i));
+                }
+                t.check(ok, || format!("F65537: fft size {n} offset {offset} len {len} (sampled positions)"));
+                let back = dom.ifft(&ev);
+                t.check(back.len() == n && (0..n).all(|j| back[j] == if j < len { c[j] } else { F65537::zero() }), || format!("F65537: ifft(fft) size {n} offset {offset} len {len}"));
+            }
+        }
+    }
     // batch inversion of long vectors with zeros sprinkled in
     for len in [1usize, 2, 17, 64, 1000] {
         let v: Vec<F65537> = (0..len).map(|i| if i % 13 == 5 { F65537::zero() } else { rnd(&mut rng) }).collect();
